@@ -33,6 +33,7 @@ import sys
 import threading
 from array import array
 
+PASSWORD = 'secret'
 MODEL_KINDS = ('rd', 'wr', 'acq', 'snd', 'rcv', 'tmo', 'rel', 'ret')
 
 
@@ -203,7 +204,8 @@ def parse_tx(pdu):
     m = b[off + 1:]
     if ln != len(m) or len(m) < 7 or sum(m[0:3]) % 256 or sum(m[3:]) % 256:
         raise HarnessError('malformed IPMB message in datagram: ' + b.hex())
-    return {'auth': auth, 'sseq': sseq, 'sid': sid, 'rs_sa': m[0], 'netfn': m[1] >> 2, 'rs_lun': m[1] & 3,
+    return {'auth': auth, 'sseq': sseq, 'sid': sid, 'raw_seq': b[5:9].hex(), 'raw_sid': b[9:13].hex(),
+            'authcode': b[13:29].hex() if auth != 0 else '', 'msg': m.hex(), 'rs_sa': m[0], 'netfn': m[1] >> 2, 'rs_lun': m[1] & 3,
             'rq_sa': m[3], 'seq': m[4] >> 2, 'rq_lun': m[4] & 3, 'cmd': m[5], 'data': m[6:-1].hex()}
 
 
@@ -407,15 +409,33 @@ def _run(cfg, fine, s, R, SESS, Session, Target, create_request_by_name):
             s.did(tid, 'wr', v)
         next_sequence_number = property(_g, _s)
 
+    unlocked = []      # accesses to Session.sequence_number by a scheduled thread holding no lock
+
+    def holds_lock(tid):
+        return any(l.owner == tid for l in s.locks)
+
     class SSession(Session):
+        # every access to the session sequence number is a scheduling point in the line mode;
+        # in the systematic mode it is one when the thread holds NO lock (on the code as it is,
+        # IpmiMsg.pack only runs under the transaction lock, so this adds nothing there)
         def _g(self):
-            if fine:
-                s.park('srd')
+            tid = s.ident.get(threading.get_ident())
+            if tid is not None:
+                free = not holds_lock(tid)
+                if free:
+                    unlocked.append((tid, 'srd'))
+                if fine or free:
+                    s.park('srd')
             return self.__dict__['_c14_sq']
 
         def _s(self, v):
-            if fine:
-                s.park('swr')
+            tid = s.ident.get(threading.get_ident())
+            if tid is not None:
+                free = not holds_lock(tid)
+                if free:
+                    unlocked.append((tid, 'swr'))
+                if fine or free:
+                    s.park('swr')
             self.__dict__['_c14_sq'] = v
         sequence_number = property(_g, _s)
 
@@ -432,7 +452,7 @@ def _run(cfg, fine, s, R, SESS, Session, Target, create_request_by_name):
     sess.activated = cfg.get('active', True)
     auth = cfg.get('auth', 0)
     if auth:
-        sess.set_auth_type_user('admin', 'secret')
+        sess.set_auth_type_user('admin', PASSWORD)
         sess.auth_type = auth
     intf._session = sess
 
@@ -537,7 +557,8 @@ def _run(cfg, fine, s, R, SESS, Session, Target, create_request_by_name):
     for ev in sock.wire:
         if ev[0] == 'tx':
             p = ev[3]
-            wire.append(['tx', ev[1], ev[2], p['sseq'], p['seq'], p['netfn'], p['cmd'], ev[4]])
+            wire.append(['tx', ev[1], ev[2], p['sseq'], p['seq'], p['netfn'], p['cmd'], ev[4],
+                         {k: p[k] for k in ('auth', 'raw_seq', 'raw_sid', 'authcode', 'msg')}])
         elif ev[0] == 'rx':
             wire.append(['rx', ev[1], ev[3]['seq'], ev[3]['netfn'], ev[3]['cmd'], ev[2]])
         elif ev[0] == 'atx':        # ASF ping sent: thread, request index, datagram number
@@ -554,6 +575,7 @@ def _run(cfg, fine, s, R, SESS, Session, Target, create_request_by_name):
         'enabled_log': s.enabled_log,
         'lock_owner': next((l.owner for l in s.locks if l.owner is not None), None),
         'locks_used': sum(1 for l in s.locks if getattr(l, 'used', False)),
+        'unlocked_session_accesses': len(unlocked),
         'keepalive_job': getattr(bind_job(intf)[0], '__name__', '?'),
         'final_nsn': intf.__dict__.get('_c14_nsn'),
         'final_sseq': sess.__dict__.get('_c14_sq'),
